@@ -51,6 +51,8 @@ class WorldC07(World):
             'pmutt.omkm.reaction.SurfaceReaction / BEP', 'pmutt.mixture.cov.PiecewiseCovEffect', 'Nasa / Nasa9 / Shomate emitters',
             'pmutt.io.ctml_writer (the repo\'s CTI interpreter, used to execute written CTI text)', 'PyYAML')
     SIMULATED = ('disk: SimFS', 'clock: SimClock bound to pmutt.io.datetime', 'hash seed (element sets)',
+                 'allocator: SimAlloc (MemoryError at a seeded function entry of the writer call)',
+                 'file names: symbolic links, bare names from changing working directories',
                  'modeller and writer clients interleaved over coexisting phase objects')
     ASSUMPTIONS = ('rate parameters are compared with the getters of a twin model rebuilt from the same description',
                    'generated XML (write_xml=True) is outside the property and never requested',)
